@@ -89,6 +89,31 @@ def gen_case(rng, methods=METHODS, max_lang=5, max_conc=5):
             "seed": rng.randrange(1 << 30)}
 
 
+def exhaustive_cases():
+    """Small scope, exhaustively: one concept x three languages, every cell empty / one word / two
+    words (synonyms) from a pool of three words, plus one fixed word of an alphabetically earlier
+    concept (so that the offset k is in play); x {turchin, edit-dist} x 3 linkages x 2 threshold
+    pairs.  Keys are assigned in decreasing order (data order != key order)."""
+    import itertools
+    pool = [["t", "a"], ["t", "a", "k"], ["d", "a"]]
+    opts = [[]] + [[a] for a in range(3)] + [[a, b] for a in range(3) for b in range(3)]
+    pairs = {"turchin": [(F(3, 10), F(1)), (F(0), F(99, 100))],
+             "edit-dist": [(F(1, 3), F(1, 2)), (F(0), F(2, 3))]}
+    for cells in itertools.product(opts, repeat=3):
+        if not any(cells):
+            continue
+        rows = [[50, "B", "W", ["t", "a"]]]
+        key = 40
+        for lang, ws in zip(("A", "B", "C"), cells):
+            for wi in ws:
+                rows.append([key, lang, "X", list(pool[wi])])
+                key -= 3
+        for method in ("turchin", "edit-dist"):
+            for linkage in LINKAGES:
+                for t1, t2 in pairs[method]:
+                    yield {"method": method, "linkage": linkage, "t1": t1, "t2": t2, "rows": rows, "seed": 0}
+
+
 # ---------------------------------------------------------------------------
 # implementation side
 
